@@ -72,7 +72,8 @@ def match_finding(prop_id: str, viol: dict, findings: List[dict]) -> Optional[di
             continue
         if f.get("executor") != viol.get("executor"):
             continue
-        if f.get("cls") != viol.get("cls"):
+        fcls = f.get("cls")
+        if (viol.get("cls") not in fcls) if isinstance(fcls, list) else (fcls != viol.get("cls")):
             continue
         where = f.get("where", {})
         vw = viol.get("where", {})
